@@ -1,5 +1,5 @@
 """C03 - water content and ponding within physical limits (kind B, exploration)."""
-from .common import std_case, std_run, STATE_MEASURE  # noqa: F401
+from .common import std_case, std_run, reclamp_cn, hardpan_regime, HARDPAN_PROFILE, STATE_MEASURE  # noqa: F401
 from ..monitors import mon_c03
 
 ID = "C03"
@@ -9,7 +9,7 @@ BUDGET_S = {"quick": 150, "thorough": 1500}
 RULE = ("seeded swarm biased to saturated starts, 300 mm storms on low-Ksat layered soils, multi-year droughts, water tables at "
         "0.2-1 m, bunds; bounds are checked per compartment per day against profile arrays copied at initialisation. Non-trivial "
         "run: some compartment reached saturation or air-dry, or water was ponded, on some day; distinct = distinct configuration signatures")
-PROFILE = {"irr_methods": [0, 0, 1, 2, 3, 4, 4, 4, 5], "restrictive_p": 0.1, "sat_start_p": 0.35, "bunds": 0.4, "field_p": 0.6, "gw": 0.35, "gw_depths": [0.2, 0.3, 0.45, 0.75, 1.0, 1.5, 3.0],
+PROFILE = {"reactive_p": 0.3, "irr_methods": [0, 0, 1, 2, 3, 4, 4, 4, 5], "restrictive_p": 0.1, "sat_start_p": 0.35, "bunds": 0.4, "field_p": 0.6, "gw": 0.35, "gw_depths": [0.2, 0.3, 0.45, 0.75, 1.0, 1.5, 3.0],
            "custom_soil_p": 0.45, "event_kinds": ["storm", "storm", "drought", "drought", "heat_wave", "et0_spike", "wet_spell"],
            "events_per_year": 3.0, "n_seasons": [1, 2, 3, 4], "off_season_p": 0.6,
            "soils": ["Clay", "Paddy", "SiltClay", "Sand", "LoamySand", "SandyLoam", "Loam", "ac_TunisLocal", "SiltLoam"]}
@@ -21,6 +21,9 @@ LOAM = lambda rng: ["hyd", None, round(rng.uniform(0.12, 0.16), 3), round(rng.un
 
 
 def gen_case(rng, tier, idx):
+    if idx % 4 == 3:
+        # permeable top soil over a nearly impermeable porous pan, frequent rain: water backs up towards the surface
+        return hardpan_regime(rng, std_case(rng, dict(PROFILE, **HARDPAN_PROFILE)))
     case = std_case(rng, PROFILE)
     if idx % 4 == 1:
         # basin irrigation: high in-season bunds kept ponded (constant depth / interval irrigation, initial ponding), lower or
@@ -69,6 +72,7 @@ def gen_case(rng, tier, idx):
         spec["irr"] = {"method": m, "kwargs": ({"NetIrrSMT": rng.choice([50, 70, 90, 100])} if m == 4 else ({"SMT": [rng.choice([50, 70, 90])] * 4} if m == 1 else {})), "schedule": None}
         spec["gw"] = None
         case["controller"] = None
+    reclamp_cn(case["spec"])
     return case
 
 
